@@ -120,10 +120,16 @@ def replay(behs, *, variants=None, timeout=900, features=(), pass_dump=None):
     return parse_report(p)
 
 
+PASS_EVENTS = {"Reset", "Graph", "Event", "MsgClear", "Pass", "PassEnd", "ReloadTry", "ReloadOk", "ReloadErr"}
+
+
 def parse_report(p):
     for line in p.stdout.splitlines():
         if line.startswith("REPORT "):
             return json.loads(line[7:])
+    why = vlib.died(p)
+    if why:
+        raise vlib.Died(why, p)
     raise vlib.ToolError(f"harness gave no report (rc={p.returncode}):\n{p.stdout[-2000:]}\n{p.stderr[-3000:]}")
 
 
@@ -147,20 +153,30 @@ def run_suite(ctx, suite, *, classify=None, nontrivial=None, variants=None, feat
         rep = replay(behs, variants=variants, features=features, pass_dump=dump)
         total += len(behs)
         if dump and os.path.exists(dump):
-            # code -> spec: the reloader's own bookkeeping events against DepsGraph.tla
-            verdict, tr, detail = vlib.trace_check("Trace_Pass", "Trace_Pass.cfg", dump, name=f"pass-{w}", timeout=1200, xmx="6g")
-            if verdict == "error":
-                raise vlib.ToolError(f"Trace_Pass validation failed to run: {detail}")
+            # code -> spec: every hook event of the reloader thread against Trace_Thread.tla (control flow,
+            # answers, bookkeeping) and its bookkeeping projection against Trace_Pass.tla (DepsGraph.tla)
+            proj = dump + ".pass"
+            with open(proj, "w") as f:
+                for line in open(dump):
+                    if json.loads(line)["ev"] in PASS_EVENTS:
+                        f.write(line)
             nev = rep["extra"].get("pass_events", 0)
-            ctx.cov["reloader_events_validated"] = ctx.cov.get("reloader_events_validated", 0) + (nev if verdict == "accepted" else 0)
-            if verdict != "accepted":
-                keep = dump + ".rejected"
-                os.replace(dump, keep)
-                ctx.violation(f"{ctx.prop}/{w}:reloader-bookkeeping",
-                              f"the reloader's Graph/Event/Pass/ReloadTry events are not explained by DepsGraph.tla ({verdict}: {detail[:300]})",
-                              {"trace_file": keep, "tlc": detail})
-            else:
-                os.remove(dump)
+            for (mod, path, what) in [("Trace_Thread", dump, "control flow / answers / bookkeeping events are not a run of the thread automaton Trace_Thread.tla"),
+                                      ("Trace_Pass", proj, "Graph/Event/Pass/ReloadTry events are not explained by DepsGraph.tla")]:
+                verdict, tr, detail = vlib.trace_check(mod, mod + ".cfg", path, name=f"{mod[6:].lower()}-{w}", timeout=1200, xmx="6g")
+                if verdict == "error":
+                    raise vlib.ToolError(f"{mod} validation failed to run: {detail}")
+                if mod == "Trace_Thread":
+                    ctx.cov["reloader_events_validated"] = ctx.cov.get("reloader_events_validated", 0) + (nev if verdict == "accepted" else 0)
+                if verdict != "accepted":
+                    keep = path + ".rejected"
+                    os.replace(path, keep)
+                    ctx.violation(f"{ctx.prop}/{w}:reloader-{mod[6:].lower()}",
+                                  f"the reloader thread's {what} ({verdict}: {detail[:300]})",
+                                  {"trace_file": keep, "tlc": detail})
+            for f in (dump, proj):
+                if os.path.exists(f):
+                    os.remove(f)
         for b in behs:
             ctx.case(b, nontrivial=(nontrivial(b) if nontrivial else True))
         ctx.sample({"world": w, "behaviour": [s["step"] for s in behs[len(behs) // 2][1:]]})
